@@ -3732,8 +3732,12 @@ impl Interpreter {
             (JsValue::Undefined, JsValue::Null) | (JsValue::Null, JsValue::Undefined) => true,
 
             // 2. Number == String: convert string to number
-            (JsValue::Number(n), JsValue::String(s)) => *n == s.parse().unwrap_or(f64::NAN),
-            (JsValue::String(s), JsValue::Number(n)) => s.parse().unwrap_or(f64::NAN) == *n,
+            (JsValue::Number(n), JsValue::String(s)) => {
+                *n == crate::value::string_to_number(s.as_str())
+            }
+            (JsValue::String(s), JsValue::Number(n)) => {
+                crate::value::string_to_number(s.as_str()) == *n
+            }
 
             // 3. Boolean == anything: convert boolean to number and compare again
             (JsValue::Boolean(b), other) => {
